@@ -16,7 +16,11 @@ EXPLANATION = (
     "of KROMEReaction.rateexpr consists of exactly the reviewed rewritings: the d-exponent pattern requires a digit before `d` and keeps sign and "
     "digits of the exponent, the idx_ suffix patterns admit species names of any length and agree with Species.alias (p -> II, m -> M, neutral -> I); "
     "R4 directive state is reset by initialize() for every class attribute preprocessing mutates (shared with C17.R4); R5 the translation entry "
-    "points (KROMEReaction.rateexpr, ExpressionConverter.read/__str__/__format__) are not memoised -- reaction equality ignores the rate string.")
+    "points (KROMEReaction.rateexpr, ExpressionConverter.read/__str__/__format__) are not memoised -- reaction equality ignores the rate string; "
+    "R1 also: no alternative that starts with a sign terminal is derivable (through unit productions) from the base operand of POW (-x**2 is -(x**2)); "
+    "R2 callbacks in a spelling other than join/replace chains are judged by their output on concrete children of the rule's shapes; "
+    "R8 the text reaches the reviewed pre-pass unrewritten: preprocessing returns its line (stripped) or \"\", rate_string is the rate column of the "
+    "comma-split line with the one reviewed spelling change dexp -> exp.")
 ASSUMPTIONS = [
     "numerical equality of the two expressions over all valuations is not decided",
     "lark's grammar loader represents the grammar text faithfully",
@@ -67,6 +71,21 @@ def _grammars(ctx, pkg):
     for name, lang in (("fgrammar", "fortran"), ("cgrammar", "c")):
         node = by_lang.get(lang, ci.attrs.get(name))
         out[name] = _const_str(node, ci.attrs)
+    if not all(out.values()):
+        # the text assembled from module-level pieces / by a layout function: constant folding of the module's and the class's
+        # assignments in order (sa.consteval: values written in the source combined by str / tuple operations, nothing is run)
+        from .. import consteval
+        funcs = {}
+        env = consteval.run(pkg.modules[ci.file].body, funcs=funcs)
+        env = consteval.run(ci.node.body, env, funcs=funcs)
+        table = env.get("grammar")
+        for name, lang in (("fgrammar", "fortran"), ("cgrammar", "c")):
+            if not out[name]:
+                v = None
+                if isinstance(table, dict):
+                    v = next((x for k, x in table.items() if isinstance(k, str) and k.lower() == lang), None)
+                v = v if isinstance(v, str) else env.get(name)
+                out[name] = v if isinstance(v, str) else None
     return ci, out
 
 
@@ -94,6 +113,7 @@ def _unit_closure(rules, start):
 
 def check(ctx):
     pkg = package(ctx.tree)
+    _MODULE["mod"] = pkg.modules.get(CF)
     ci, gr = _grammars(ctx, pkg)
     _r1(ctx, gr)
     _r2(ctx, pkg, ci, gr)
@@ -106,6 +126,7 @@ def check(ctx):
     from .c06 import _r1 as assignment_rule
     ctx.absorb(assignment_rule, "R7")
     _r7_own_expression(ctx, pkg)
+    _r8(ctx, pkg)
 
 
 TL = "naunet/templateloader.py"
@@ -130,11 +151,18 @@ def _r7_own_expression(ctx, pkg):
             n += 1
             v, i = simp(f.value), simp(f.index) if f.index is not None else None
             own = f.kind == "store" and v[0] == "meth" and v[2] == "rateexpr" and v[1][0] == "elem" and v[1][1] == R and i == ("idx", R, v[1][2])
-            ctx.check(own, "R7", f"_assign_rates:{f.target}[..] overwritten", (TL, f.line),
-                      f"`{f.target}[i]` is assigned reaction i's own rateexpr()" if own else
-                      f"element `{f.target}[{show(i)[:30]}]` of a list the statements are built from is overwritten with {show(v)[:60]}: the statement of that reaction no longer "
-                      "carries the translation of its own rate string (a copied coefficient is read before it is assigned, or outside its own temperature window)",
-                      expected="statement i carries reactions[i].rateexpr(..)", found=show(v)[:100])
+            # positive evidence for a violation: the value written is understood and is NOT a rate expression at all (a constant, a
+            # reference to another coefficient, another list's element); a rateexpr() call in a pairing this rule does not follow is
+            # not judged
+            foreign = not any(isinstance(x, tuple) and len(x) >= 3 and x[0] == "meth" and x[2] == "rateexpr" for x in walk(v)) and not any(isinstance(x, tuple) and x and x[0] == "unknown" for x in walk(v))
+            if own or foreign:
+                ctx.check(own, "R7", f"_assign_rates:{f.target}[..] overwritten", (TL, f.line),
+                          f"`{f.target}[i]` is assigned reaction i's own rateexpr()" if own else
+                          f"element `{f.target}[{show(i)[:30]}]` of a list the statements are built from is overwritten with {show(v)[:60]}: the statement of that reaction no longer "
+                          "carries the translation of its own rate string (a copied coefficient is read before it is assigned, or outside its own temperature window)",
+                          expected="statement i carries reactions[i].rateexpr(..)", found=show(v)[:100])
+            else:
+                ctx.unrec("R7", f"_assign_rates:{f.target}[..] overwritten", (TL, f.line), f"cannot see that `{f.target}[{show(i)[:30]}] = {show(v)[:60]}` stores the rate expression of the reaction at that position")
     ctx.stats["assign_rates_element_writes"] = n
     # ... and no text-rewriting operation stands between reac.rateexpr(..) and the statement it is pasted into: the value may be
     # named, zipped, enumerated, selected by if/else and formatted into the statement, nothing else
@@ -191,8 +219,8 @@ def _r7_own_expression(ctx, pkg):
                     visit(c, b2)
             visit(x[2], b2)
             return
-        if k == "meth" and x[2] in REWRITERS and (is_rate(x[1], bound) or any(is_rate(a, bound) for a in x[3])):
-            hits.append(x)
+        if k == "meth" and x[2] in REWRITERS and (is_rate(x[1], bound) or (x[2] in ("sub", "subn") and x[3] and is_rate(x[3][-1], bound))):
+            hits.append(x)              # (the rate text is the SUBJECT of the operation; `"{} = {};".format(k, rate)` pastes it)
         elif k == "call" and x[1][0] == "attr" and x[1][1] == ("global", "re") and x[1][2] in ("sub", "subn") and any(is_rate(a, bound) for a in x[2]):
             hits.append(x)
         elif k in ("sub", "slice") and is_rate(x[1], bound):
@@ -216,26 +244,230 @@ def _r7_own_expression(ctx, pkg):
         ctx.ok("R7", "_assign_rates:rate text pasted as returned", (TL, fn.lineno), "no rewriting operation is applied to the text rateexpr() returns")
 
 
+_TEXT_REWRITERS = {"sub", "subn", "replace", "translate", "lower", "upper", "casefold", "swapcase", "title", "capitalize", "format", "removeprefix", "removesuffix", "expandtabs",
+                   "zfill", "center", "ljust", "rjust"}
+
+
+def _text_from(v, src):
+    """How the string value `v` (sa.valueflow IR) derives from the string `src`:  ("same", []) -- it is `src`, at most with surrounding
+    whitespace stripped;  ("rewritten", [operation, ..]) -- it is `src` put through text-rewriting operations (regex substitution,
+    replace, translate, case change ..), innermost first;  ("unknown", [sub-value]) -- anything else."""
+    from ..valueflow import walk
+    ops = []
+    for _ in range(60):
+        if v == src:
+            return ("rewritten" if ops else "same"), ops[::-1]
+        if v[0] == "meth" and v[2] in ("strip", "lstrip", "rstrip") and not v[3] and not v[4]:
+            v = v[1]
+            continue
+        if v[0] == "meth" and v[2] in _TEXT_REWRITERS and any(x == src for x in walk(v[1])):
+            ops.append(v)
+            v = v[1]
+            continue
+        if v[0] == "meth" and v[2] in ("sub", "subn") and v[3] and any(x == src for x in walk(v[3][-1])):        # re.sub(p, r, text) / compiled.sub(r, text)
+            ops.append(v)
+            v = v[3][-1]
+            continue
+        if v[0] == "call" and v[1] == ("global", "str") and len(v[2]) == 1:
+            v = v[2][0]
+            continue
+        break
+    return "unknown", [v]
+
+
+def _r8(ctx, pkg):
+    """The text the translator is given is the text of the file: between the line handed to KROMEReaction.preprocessing and
+    `self.rate_string` (where R3's reviewed pre-pass starts) nothing rewrites it -- preprocessing returns the line it was given
+    (stripped) or "" for a directive, and _parse_string stores the `rate` field of the comma-split line with the one reviewed
+    spelling change dexp -> exp.  A rewriting of the whole line (number literals re-spelt, case folded ..) changes what the rate
+    expressions denote before the reviewed translation sees them."""
+    from ..valueflow import Flow, simp, show
+    helpers = lambda name: pkg.resolve("KROMEReaction", name)[1] if name.startswith("_") and not name.startswith("__") else None
+    funcs = lambda name: pkg.functions.get((KR, name))
+    # ---- preprocessing
+    _, pre = pkg.resolve("KROMEReaction", "preprocessing")
+    if pre is None:
+        ctx.missing("R8", "KROMEReaction.preprocessing", (KR, 0), "method not found")
+    else:
+        params = [a.arg for a in pre.args.args]
+        if len(params) != 2:
+            ctx.unrec("R8", "preprocessing:returns the line", (KR, pre.lineno), f"expected preprocessing(cls, line), found {params}")
+        else:
+            src = ("param", params[1])
+            rets = [(f.line, simp(f.value)) for f in Flow(pre, KR, resolver=helpers, func_resolver=funcs).facts if f.kind == "return" and f.value is not None]
+            verdicts = []
+            for line, v in rets:
+                arms = [v]
+                while any(a[0] in ("phi", "ifexp") for a in arms):
+                    arms = [b for a in arms for b in ((a[2], a[3]) if a[0] in ("phi", "ifexp") else (a,))]
+                for a in arms:
+                    if a == ("const", ""):
+                        continue
+                    verdicts.append((line,) + _text_from(a, src))
+            n_line = sum(1 for _, k, _ in verdicts if k == "same")
+            for line, kind, ops in verdicts:
+                if kind == "rewritten":
+                    ctx.bad("R8", f"preprocessing:line rewritten:{show(ops[0])[:50]}", (KR, line),
+                            f"preprocessing does not hand back the line it was given but the line put through {show(ops[0])[:90]}: the rate expression (and every other field) is re-spelt for the "
+                            "whole line before the reviewed pre-pass of rateexpr sees it -- a literal such as 1d0 can reach the translator as the C integer 1 (1d0/3d0 -> 1/3 = 0)",
+                            expected="return line.strip()  (\"\" for a directive line)", found=show(ops[-1])[:160])
+                elif kind == "unknown":
+                    ctx.unrec("R8", "preprocessing:returns the line", (KR, line), f"cannot see that preprocessing returns its line unchanged: {show(ops[0])[:100]}")
+            if not any(k != "same" for _, k, _ in verdicts):
+                if n_line:
+                    ctx.ok("R8", "preprocessing:returns the line", (KR, pre.lineno), "a line that is not a directive is handed back as it was read (stripped)")
+                else:
+                    ctx.unrec("R8", "preprocessing:returns the line", (KR, pre.lineno), "no exit of preprocessing returns the line")
+    # ---- _parse_string: rate_string
+    _, ps = pkg.resolve("KROMEReaction", "_parse_string")
+    if ps is None:
+        ctx.missing("R8", "KROMEReaction._parse_string", (KR, 0), "method not found")
+        return
+    params = [a.arg for a in ps.args.args]
+    stores = [(f.line, simp(f.value)) for f in Flow(ps, KR, resolver=helpers, func_resolver=funcs).facts if f.kind == "attrstore" and f.target == "rate_string" and f.value is not None]
+    if len(params) == 2 and not stores:
+        # the columns are handed to reader methods (a table of readers, a generator of (keyword, value) pairs): the store and the
+        # split are judged where they are written -- the stored text is the reader's parameter with the reviewed spelling change,
+        # and whatever is split at the commas is a parameter as it came (the pairing of columns and readers is not followed)
+        from ..valueflow import walk
+        ci = pkg.cls("KROMEReaction")
+        key = "_parse_string:rate_string is the rate field"
+        seen_store = seen_split = 0
+        verdict = []
+        for mname, m in ci.methods.items():
+            if mname in ("rateexpr", "preprocessing", "initialize", "finalize"):
+                continue
+            ps_ = [("param", a.arg) for a in m.args.args[1:]]
+            for f in Flow(m, KR, resolver=helpers, func_resolver=funcs).facts:
+                vals = [simp(f.value)] if f.value is not None else []
+                if f.kind == "attrstore" and f.target == "rate_string" and vals and vals[0] != ("const", None):
+                    seen_store += 1
+                    v, reps = vals[0], []
+                    while v[0] == "meth" and v[2] == "replace" and len(v[3]) == 2 and not v[4] and all(a[0] == "const" for a in v[3]):
+                        reps.append((v[3][0][1], v[3][1][1]))
+                        v = v[1]
+                    how = [_text_from(v, p_) for p_ in ps_]
+                    if any(h[0] == "same" for h in how) and set(reps) <= {("dexp", "exp")}:
+                        verdict.append(("ok", f.line, ""))
+                    elif any(h[0] == "rewritten" for h in how) or (any(h[0] == "same" for h in how) and reps):
+                        verdict.append(("bad", f.line, show(vals[0])[:120]))
+                    else:
+                        verdict.append(("unknown", f.line, show(vals[0])[:120]))
+                for x in (y for v_ in vals + [simp(l.iter) for l in f.loops] for y in walk(v_)):
+                    if isinstance(x, tuple) and len(x) == 5 and x[0] == "meth" and x[2] == "split" and x[3] == (("const", ","),) and any(y in ps_ for y in walk(x[1])):
+                        how = [_text_from(x[1], p_) for p_ in ps_]
+                        if any(h[0] == "same" for h in how):
+                            seen_split += 1
+                        elif any(h[0] == "rewritten" for h in how):
+                            verdict.append(("bad", f.line, show(x[1])[:120]))
+        for kind, line, what in verdict:
+            if kind == "bad":
+                ctx.bad("R8", f"{key}:{what[:40]}", (KR, line), f"the text stored in rate_string / split into columns is rewritten first ({what}): the translator does not see the file's expression",
+                        expected="rate_string = <column>.replace('dexp', 'exp') of the line as read", found=what)
+            elif kind == "unknown":
+                ctx.unrec("R8", key, (KR, line), f"cannot see that rate_string is stored from the reader's parameter: {what}")
+        if verdict and all(k == "ok" for k, _, _ in verdict) and seen_store and seen_split:
+            ctx.ok("R8", key, (KR, ps.lineno), "rate_string is stored by a column reader from its parameter (dexp spelt exp); the line is split as it was read")
+        elif not verdict or not seen_split:
+            ctx.unrec("R8", key, (KR, ps.lineno), "cannot see where the line is split and where rate_string is stored")
+        return
+    if len(params) != 2 or not stores:
+        ctx.unrec("R8", "_parse_string:rate_string is the rate field", (KR, ps.lineno), "cannot see where _parse_string(self, line) stores rate_string")
+        return
+    src = ("param", params[1])
+    for line, v in stores:
+        reps, fops = [], []
+        for _ in range(40):
+            if v[0] == "meth" and v[2] == "replace" and len(v[3]) == 2 and not v[4] and all(a[0] == "const" for a in v[3]):
+                reps.append((v[3][0][1], v[3][1][1]))
+                v = v[1]
+            elif v[0] == "meth" and v[2] in ("strip", "lstrip", "rstrip") and not v[3] and not v[4]:
+                v = v[1]
+            elif v[0] == "meth" and v[2] in _TEXT_REWRITERS and v[1][0] in ("meth", "elem", "item", "sub"):
+                fops.append(v)                  # (another rewriting of the field itself: case folding, translate, a computed replace ..)
+                v = v[1]
+            elif v[0] == "meth" and v[2] in ("sub", "subn") and v[1] == ("global", "re") and len(v[3]) >= 3:
+                fops.append(v)
+                v = v[3][2]
+            else:
+                break
+        field = v[1] if v[0] in ("elem", "item", "sub") else None
+        whole = None
+        if field is not None and field[0] == "meth" and field[2] == "split" and not field[4]:
+            whole = _text_from(field[1], src)
+        direct = _text_from(v, src)
+        key = "_parse_string:rate_string is the rate field"
+        if fops and whole and whole[0] in ("same", "rewritten"):
+            direct = ("rewritten", fops[::-1])
+        if direct[0] == "rewritten" or (whole and whole[0] == "rewritten"):
+            op = (direct[1] if direct[0] == "rewritten" else whole[1])[0]
+            ctx.bad("R8", f"{key}:{show(op)[:40]}", (KR, line), f"the line is put through {show(op)[:90]} before its rate field is stored: the translator does not see the file's expression",
+                    expected="rate_string = <rate field of line.split(',')>.replace('dexp', 'exp')", found=show(op)[:160])
+        elif whole is None or whole[0] != "same":
+            ctx.unrec("R8", key, (KR, line), f"cannot see that rate_string is a field of the comma-split line: {show(v)[:100]}")
+        elif sorted(reps) != [("dexp", "exp")] and reps:
+            extra = [r for r in reps if r != ("dexp", "exp")]
+            ctx.bad("R8", f"{key}:replace{extra[0]}", (KR, line), f"the rate field is rewritten by .replace{extra[0]} before it is stored: not one of the reviewed rewritings (dexp -> exp)",
+                    expected="only .replace('dexp', 'exp')", found=str(reps))
+        else:
+            ctx.ok("R8", key, (KR, line), "rate_string is the rate field of the line as read (dexp spelt exp)")
+
+
 def _r6(ctx, pkg, ci):
     """The grammars are written for Lark's default Earley parser with its dynamic lexer: terminals overlap on purpose (NUMBER is a
     SIGNED number, WORD/NUMBER/UNDER chain into names) and only Earley lets the grammar decide where a token ends.  R1's rule-graph
     argument is about that parser; a greedy (LALR / standard-lexer) construction tokenises `y+2` after a name as one atom."""
     n = 0
+    encl = {id(c): f for f in ast.walk(ci.node) if isinstance(f, ast.FunctionDef) for c in ast.walk(f) if isinstance(c, ast.Call)}
+
+    def values(v, fn, depth=0):
+        """the constants an option expression can take: a literal; a local bound once in the enclosing function; a lookup
+        `self.TABLE.get(key, default)` / `self.TABLE[key]` in a class-level dict of literals (every value of the table, and the
+        default); None when it cannot be told"""
+        if isinstance(v, ast.Constant):
+            return {v.value}
+        if depth > 4:
+            return None
+        if isinstance(v, ast.Name) and fn is not None:
+            defs = [x.value for x in ast.walk(fn) if isinstance(x, ast.Assign) and len(x.targets) == 1 and isinstance(x.targets[0], ast.Name) and x.targets[0].id == v.id]
+            stores = [x for x in ast.walk(fn) if isinstance(x, ast.Name) and x.id == v.id and isinstance(x.ctx, (ast.Store, ast.Del))]
+            return values(defs[0], fn, depth + 1) if len(defs) == 1 and len(stores) == 1 else None
+        if isinstance(v, ast.IfExp):
+            a, b = values(v.body, fn, depth + 1), values(v.orelse, fn, depth + 1)
+            return None if a is None or b is None else a | b
+        tbl, extra = None, set()
+        if isinstance(v, ast.Call) and isinstance(v.func, ast.Attribute) and v.func.attr == "get" and 1 <= len(v.args) <= 2 and not v.keywords:
+            tbl = v.func.value
+            d = values(v.args[1], fn, depth + 1) if len(v.args) == 2 else {None}
+            if d is None:
+                return None
+            extra = d
+        elif isinstance(v, ast.Subscript):
+            tbl = v.value
+        if isinstance(tbl, ast.Attribute) and isinstance(tbl.value, ast.Name) and tbl.value.id in ("self", "cls", "ExpressionConverter") and isinstance(ci.attrs.get(tbl.attr), ast.Dict) \
+                and all(isinstance(x, ast.Constant) for x in ci.attrs[tbl.attr].values):
+            return {x.value for x in ci.attrs[tbl.attr].values} | extra
+        return None
     for c in ast.walk(ci.node):
         if isinstance(c, ast.Call) and ast.unparse(c.func) == "Lark":
             n += 1
             kw = {k.arg: k.value for k in c.keywords}
-            bad = []
+            bad, unknown = [], []
             for name in ("parser", "lexer"):
                 v = kw.get(name)
                 if v is None:
                     continue
-                if isinstance(v, ast.Constant) and v.value in ("earley", "dynamic", "dynamic_complete"):
-                    continue
-                bad.append(f"{name}={ast.unparse(v)}")
+                vals = values(v, encl.get(id(c)))
+                if vals is None:
+                    unknown.append(f"{name}={ast.unparse(v)}")
+                elif not vals <= {"earley", "dynamic", "dynamic_complete"}:
+                    bad.append(f"{name}={ast.unparse(v)}" + ("" if isinstance(v, ast.Constant) else f" (one of {sorted(map(str, vals))})"))
             amb = kw.get("ambiguity")
             if amb is not None and not (isinstance(amb, ast.Constant) and amb.value == "resolve"):
-                bad.append(f"ambiguity={ast.unparse(amb)}")
+                (bad if isinstance(amb, ast.Constant) else unknown).append(f"ambiguity={ast.unparse(amb)}")
+            if unknown and not bad:
+                ctx.unrec("R6", "Lark(..): Earley with the dynamic lexer", (CF, c.lineno), f"the parser options are not literals: {unknown}")
+                continue
             ctx.check(not bad, "R6", "Lark(..): Earley with the dynamic lexer", (CF, c.lineno),
                       "the parser is Lark's default (Earley, dynamic lexer)" if not bad else
                       f"the parser is constructed with {bad}: with a greedy lexer the overlapping terminals of these grammars (signed NUMBER inside names) are cut differently, "
@@ -289,6 +521,24 @@ def _r1(ctx, gr):
                   f"`power: {' '.join(n for n, _ in exp)}` with `{left[0]}` deriving `power` without parentheses: a**b**c also parses as (a**b)**c, and the translator "
                   "emits pow(pow(a, b), c) -- Fortran's ** is right-associative",
                   expected="power: base POW (power | atom) with base excluding power", found=f"{left[0]} =>* {sorted(lc)}")
+        # a sign-prefixed alternative as the BASE of **: `-x**2` then (also) parses with the sign inside the base, pow(-x, 2), where
+        # Fortran evaluates -(x**2).  Decided on the rule graph: from the left operand through unit productions to an expansion of
+        # two or more symbols that starts with a terminal matching a bare "-" / "+"
+        import re as _re
+
+        def is_sign(term_name):
+            t = terms.get(term_name)
+            try:
+                rx = t.pattern.to_regexp()
+                return bool(_re.fullmatch(rx, "-") or _re.fullmatch(rx, "+"))
+            except Exception:
+                return False
+        prefixed = sorted((r, " ".join(n for n, _ in e)) for r in lc for e in rules.get(r, []) if len(e) >= 2 and e[0][1] and is_sign(e[0][0]))
+        ctx.check(not prefixed, "R1", "fgrammar:sign-prefixed base of POW", (CF, 0),
+                  "no alternative that starts with a sign can be the base of ** (a sign in front of x**y applies to the power)" if not prefixed else
+                  f"the base of ** (`{left[0]}`) derives `{prefixed[0][0]}: {prefixed[0][1]}`, an operand that starts with a sign: `-x**2` is accepted and translated to pow(-x, 2) "
+                  "while Fortran evaluates -(x**2) -- the sign is lost for even exponents, NaN for fractional ones",
+                  expected="a unary sign rule ABOVE power (sign applied to the whole x**y)", found=f"{left[0]} =>* {prefixed[0][0]}: {prefixed[0][1]}" if prefixed else None)
         # signed numbers as operands
         signed = [n for n, t in terms.items() if n == "NUMBER" and "SIGNED_NUMBER" in text]
         reach = set()
@@ -304,10 +554,62 @@ def _r1(ctx, gr):
                   expected="unsigned number terminal plus a unary-minus rule above power", found="%import common.SIGNED_NUMBER -> NUMBER; scientific: NUMBER ..; atom: scientific | power ..")
 
 
+_MODULE = {}          # "mod": the ast of converter.py (set by check): where callback factories and translation tables may live
+
+
+def _from_factory(call):
+    """`name = make(" ", prefix="x")` with the module-level `def make(sep, prefix=""): def cb(self, children): return <expr>; return cb`
+    (or `return lambda self, children: <expr>`): the callback `cb` with the factory's parameters replaced by the (literal) arguments
+    of this call -- a closure over constants is the function written out."""
+    import copy
+    mod = _MODULE.get("mod")
+    if mod is None or not (isinstance(call, ast.Call) and isinstance(call.func, ast.Name)) or any(isinstance(a, ast.Starred) for a in call.args) or any(k.arg is None for k in call.keywords):
+        return None
+    fds = [st for st in mod.body if isinstance(st, ast.FunctionDef) and st.name == call.func.id]
+    if len(fds) != 1 or fds[0].decorator_list or fds[0].args.vararg or fds[0].args.kwarg or fds[0].args.posonlyargs:
+        return None
+    fd = fds[0]
+    body = [st for st in fd.body if not (isinstance(st, ast.Expr) and isinstance(st.value, ast.Constant))]
+    if len(body) == 2 and isinstance(body[0], ast.FunctionDef) and isinstance(body[1], ast.Return) and isinstance(body[1].value, ast.Name) and body[1].value.id == body[0].name \
+            and not body[0].decorator_list:
+        inner = body[0]
+    elif len(body) == 1 and isinstance(body[0], ast.Return) and isinstance(body[0].value, ast.Lambda):
+        inner = body[0].value
+    else:
+        return None
+    names = [a.arg for a in fd.args.args] + [a.arg for a in fd.args.kwonlyargs]
+    bound = dict(zip([a.arg for a in fd.args.args], call.args))
+    if len(call.args) > len(fd.args.args):
+        return None
+    for k in call.keywords:
+        if k.arg not in names or k.arg in bound:
+            return None
+        bound[k.arg] = k.value
+    pos = fd.args.args
+    for a, d in list(zip(pos[len(pos) - len(fd.args.defaults):], fd.args.defaults)) + [(a, d) for a, d in zip(fd.args.kwonlyargs, fd.args.kw_defaults) if d is not None]:
+        bound.setdefault(a.arg, d)
+    if set(bound) != set(names) or not all(isinstance(v, ast.Constant) for v in bound.values()):
+        return None
+    own = {a.arg for a in inner.args.args}
+    if any(isinstance(n, ast.Name) and isinstance(n.ctx, (ast.Store, ast.Del)) and n.id in bound for n in ast.walk(inner)) \
+            or any(isinstance(n, (ast.Nonlocal, ast.Global)) for n in ast.walk(inner)):
+        return None
+
+    class Sub(ast.NodeTransformer):
+        def visit_Name(self, n):
+            if isinstance(n.ctx, ast.Load) and n.id in bound and n.id not in own:
+                return ast.copy_location(copy.deepcopy(bound[n.id]), n)
+            return n
+    new = Sub().visit(copy.deepcopy(inner))
+    if isinstance(new, ast.FunctionDef):
+        new.name = call.func.id
+    return ast.fix_missing_locations(ast.copy_location(new, call))
+
+
 def _callbacks(cls_node):
     """name -> callback; a `def f(self, x): return <expr>` is presented as the lambda it is equivalent to.  Every target of a
     chained assignment (`a = b = f`) is bound; a name bound to another function of the same class body (`atom = _concat`) is that
-    function."""
+    function; a name bound to the result of a module-level callback factory called with literals is the callback it returns."""
     out = {}
 
     def present(s):
@@ -320,6 +622,9 @@ def _callbacks(cls_node):
             val = s.value
             if isinstance(val, ast.Name) and val.id in out:
                 val = out[val.id]
+            made = _from_factory(val) if isinstance(val, ast.Call) else None
+            if made is not None:
+                val = present(made) if isinstance(made, ast.FunctionDef) else made
             for t in s.targets:
                 if isinstance(t, ast.Name):
                     out[t.id] = val
@@ -336,19 +641,27 @@ def _class_consts(ci, order):
     from ..ratemodel import _ev_literal
     SELF = ("param", "self")
     out = {}
-    for c in reversed(order):
-        for st in ci.nested[c].body:
+    mod = _MODULE.get("mod")
+    rebound = set()
+    if mod is not None:
+        stores = [n.id for n in ast.walk(mod) if isinstance(n, ast.Name) and isinstance(n.ctx, (ast.Store, ast.Del))]
+        rebound = {x for x in stores if stores.count(x) > 1}
+    for scope, c in ([("module", None)] if mod is not None else []) + [("class", c) for c in reversed(order)]:
+        for st in (mod.body if scope == "module" else ci.nested[c].body):
             if not (isinstance(st, ast.Assign) and all(isinstance(t, ast.Name) for t in st.targets)):
+                continue
+            if scope == "module" and any(t.id in rebound for t in st.targets):
                 continue
             v = st.value
             pure = all(isinstance(n, (ast.Constant, ast.Tuple, ast.List, ast.Dict, ast.Load, ast.Call, ast.Attribute, ast.Name)) for n in ast.walk(v)) \
                 and all(ast.unparse(n.func) == "str.maketrans" and not n.keywords for n in ast.walk(v) if isinstance(n, ast.Call)) \
                 and all(n.id == "str" for n in ast.walk(v) if isinstance(n, ast.Name))
             for t in st.targets:
+                key = ("global", t.id) if scope == "module" else ("attr", SELF, t.id)        # (a module-level table is read by its bare name)
                 if pure:
-                    out[("attr", SELF, t.id)] = simp(_ev_literal(v))
+                    out[key] = simp(_ev_literal(v))
                 else:
-                    out.pop(("attr", SELF, t.id), None)
+                    out.pop(key, None)
     return out
 
 
@@ -397,7 +710,10 @@ def _callback_returns(ci, cls_name, name):
     from ..valueflow import subst
     cc = _class_consts(ci, order)
     fl = Flow(fn, CF, resolver=resolver)
-    return cb, arg, [simp(subst(simp(f.value), cc)) for f in fl.facts if f.kind == "return" and f.value is not None]
+    rets = [f for f in fl.facts if f.kind == "return" and f.value is not None]
+    # (the conditions each return is made under, for a judgement on concrete children)
+    _callback_returns.guards = [[(simp(subst(simp(g[0]), cc)), g[1]) for g in f.guards] for f in rets]
+    return cb, arg, [simp(subst(simp(f.value), cc)) for f in rets]
 
 
 def _decompose(v, arg):
@@ -446,7 +762,133 @@ def _selects_children(v, arg):
     return False
 
 
-def _callback_is(ctx, ci, name, want, key, good, wrong):
+class _NoValue(Exception):
+    pass
+
+
+def _eval_ir(v, env):
+    """Value of a reconstructed callback result for CONCRETE children (env: parameter -> list of strings): only string / list
+    operations whose meaning is fixed (literals, f-strings, join, +, indexing / slicing by literals, replace, translate through a
+    literal maketrans table, strip, len).  Anything else raises _NoValue -- the caller then does not judge."""
+    k = v[0]
+    if k == "const":
+        return v[1]
+    if k == "param":
+        if v[1] in env:
+            return env[v[1]]
+        raise _NoValue(v[1])
+    if k == "fstr":
+        out = []
+        for pt in v[1]:
+            if pt[0] == "const":
+                out.append(pt[1])
+            elif pt[0] == "fmt" and pt[2] is None and pt[3] in (-1, 115):
+                x = _eval_ir(pt[1], env)
+                if not isinstance(x, str):
+                    raise _NoValue("format of a non-string")
+                out.append(x)
+            else:
+                raise _NoValue("format spec")
+        return "".join(out)
+    if k == "fmt" and v[2] is None and v[3] in (-1, 115):
+        return _eval_ir(v[1], env)
+    if k == "join":
+        sep, seq = _eval_ir(v[1], env), _eval_ir(v[2], env)
+        if isinstance(sep, str) and isinstance(seq, (list, tuple)) and all(isinstance(x, str) for x in seq):
+            return sep.join(seq)
+        raise _NoValue("join")
+    if k in ("list", "tuple"):
+        out = []
+        for e in v[1]:
+            if e[0] == "star":
+                out.extend(_eval_ir(e[1], env))
+            else:
+                out.append(_eval_ir(e, env))
+        return out
+    if k == "binop" and v[1] in ("Add", "+"):
+        a, b = _eval_ir(v[2], env), _eval_ir(v[3], env)
+        if type(a) is type(b) and isinstance(a, (str, list)):
+            return a + b
+        raise _NoValue("+")
+    if k in ("item", "sub"):
+        base = _eval_ir(v[1], env)
+        i = v[2]
+        if isinstance(i, tuple) and i and i[0] == "slice":
+            lo, hi, st = [(None if x is None or x == ("const", None) else _eval_ir(x, env)) for x in i[1:4]]
+            return base[slice(lo, hi, st)]
+        i = i if isinstance(i, int) else _eval_ir(i, env)
+        if isinstance(i, int) and isinstance(base, (list, tuple, str)) and -len(base) <= i < len(base):
+            return base[i]
+        raise _NoValue("index")
+    if k == "unop" and v[1] in ("USub", "-"):
+        x = _eval_ir(v[2], env)
+        if isinstance(x, int):
+            return -x
+        raise _NoValue("unary")
+    if k == "call" and v[1] in (("global", "len"), ("global", "str"), ("global", "list"), ("global", "tuple")) and len(v[2]) == 1 and not v[3]:
+        x = _eval_ir(v[2][0], env)
+        return {"len": len, "str": lambda y: y if isinstance(y, str) else (_ for _ in ()).throw(_NoValue("str()")), "list": list, "tuple": list}[v[1][1]](x)
+    if k == "meth" and not v[4]:
+        if v[1] == ("global", "str") and v[2] == "maketrans":
+            args = [_eval_ir(a, env) for a in v[3]]
+            if all(isinstance(a, str) for a in args) and len(args) in (2, 3):
+                return str.maketrans(*args)
+            if len(args) == 1 and isinstance(args[0], dict):
+                return str.maketrans(args[0])
+            raise _NoValue("maketrans")
+        obj = _eval_ir(v[1], env)
+        args = [_eval_ir(a, env) for a in v[3]]
+        if isinstance(obj, str) and v[2] in ("replace", "strip", "lstrip", "rstrip", "translate", "join", "format") and v[2] != "format":
+            if v[2] == "join":
+                args = [list(args[0])]
+            try:
+                return getattr(obj, v[2])(*args)
+            except Exception as ex:
+                raise _NoValue(str(ex))
+    if k == "dict":
+        return {_eval_ir(a, env): _eval_ir(b, env) for a, b in v[1]}
+    if k == "cmp" and len(v[1]) == 1 and len(v[2]) == 2:
+        import operator as _op
+        a, b = _eval_ir(v[2][0], env), _eval_ir(v[2][1], env)
+        f = {"Eq": _op.eq, "NotEq": _op.ne, "Lt": _op.lt, "LtE": _op.le, "Gt": _op.gt, "GtE": _op.ge, "In": lambda x, y: x in y, "NotIn": lambda x, y: x not in y}.get(v[1][0])
+        if f is None:
+            raise _NoValue(v[1][0])
+        try:
+            return bool(f(a, b))
+        except TypeError as ex:
+            raise _NoValue(str(ex))
+    if k == "bool":
+        vals = [bool(_eval_ir(x, env)) for x in v[2]]
+        return all(vals) if v[1] == "And" else any(vals)
+    if k == "unop" and v[1] == "Not":
+        return not _eval_ir(v[2], env)
+    raise _NoValue(k)
+
+
+def _class_is_plain(ci, cls_name):
+    """the transformer class and its bases are ordinary nested classes whose callbacks are exactly what their bodies bind (no
+    __getattr__ / __default__ hook, no base this module cannot see): a callback that is not bound there does not exist"""
+    todo, seen = [cls_name], set()
+    while todo:
+        c = todo.pop()
+        if c in seen:
+            continue
+        seen.add(c)
+        if c == "Transformer":
+            continue
+        node = ci.nested.get(c)
+        if node is None or node.decorator_list or node.keywords:
+            return False
+        for st in node.body:
+            if isinstance(st, ast.FunctionDef) and st.name in ("__getattr__", "__getattribute__", "__default__", "__default_token__", "__init_subclass__", "__class_getitem__"):
+                return False
+            if not isinstance(st, (ast.FunctionDef, ast.Assign, ast.AnnAssign, ast.Expr, ast.Pass)) or (isinstance(st, ast.Expr) and not isinstance(st.value, ast.Constant)):
+                return False
+        todo.extend(ast.unparse(b).split(".")[-1] for b in node.bases)
+    return True
+
+
+def _callback_is(ctx, ci, name, want, key, good, wrong, samples=()):
     """The C callback `name` returns, on every path, prefix + sep.join(children) + replacements + suffix as `want` says
     (want = (prefix, sep, replacements as a set, suffix))."""
     from ..valueflow import show
@@ -454,18 +896,43 @@ def _callback_is(ctx, ci, name, want, key, good, wrong):
     where = (CF, getattr(cb, "lineno", 0))
     src = " ".join(ast.unparse(cb).split())[:140] if cb is not None else "missing"
     if cb is None:
-        ctx.bad("R2", key, where, wrong, expected=_want_text(want), found="missing")
+        if _class_is_plain(ci, "CExpression"):
+            ctx.bad("R2", key, where, wrong, expected=_want_text(want), found="missing")
+        else:
+            ctx.unrec("R2", key, where, f"no callback `{name}` is bound in the class bodies, and the transformer classes are not plain classes: cannot tell whether the rule is handled")
         return
     if not rets:
         ctx.unrec("R2", key, where, f"cannot reconstruct what the callback `{name}` returns: {src}")
         return
+
+    def reference(children):
+        out = want[0] + want[1].join(children)
+        for a, b in want[2]:
+            out = out.replace(a, b)
+        return out + want[3]
     verdicts = []
-    for v in rets:
+    guards = getattr(_callback_returns, "guards", [])
+    for n_, v in enumerate(rets):
         d = _decompose(v, arg)
-        if d is not None:
-            verdicts.append("ok" if (d[0], d[1], frozenset(d[2]), d[3]) == (want[0], want[1], frozenset(want[2]), want[3]) and len(d[2]) == len(want[2]) else "wrong")
-        elif _selects_children(v, arg) or v[0] == "const":
+        if d is not None and (d[0], d[1], frozenset(d[2]), d[3]) == (want[0], want[1], frozenset(want[2]), want[3]) and len(d[2]) == len(want[2]):
+            verdicts.append("ok")
+            continue
+        # any other spelling (children picked by position, other order of the replacements, a constant ..): judged by what it
+        # produces for concrete children of the shapes the grammar rule has, for the samples this return is reached with (its
+        # guards evaluated on the sample) -- wrong only when an output differs
+        outs, undecided = [], False
+        for smp in samples:
+            env = {arg: list(smp)}
+            try:
+                if not all(bool(_eval_ir(c, env)) == pol for c, pol in (guards[n_] if n_ < len(guards) else [])):
+                    continue
+                outs.append((_eval_ir(v, env), reference(list(smp))))
+            except (_NoValue, IndexError, TypeError, ValueError, KeyError):
+                undecided = True
+        if any(isinstance(a, str) and a != b for a, b in outs):
             verdicts.append("wrong")
+        elif outs and not undecided and all(isinstance(a, str) for a, b in outs):
+            verdicts.append("ok")
         else:
             verdicts.append("unknown")
     if "wrong" in verdicts:
@@ -529,15 +996,24 @@ def _r2(ctx, pkg, ci, gr):
         if not text:
             continue
         rule_names = re.findall(r"^\s*([a-z_]+)\s*:", text, re.M)
+        plain = _class_is_plain(ci, "CExpression" if other == "c" else "FExpression")
         for r in rule_names:
             n += 1
-            ctx.check(r in tr[other], "R2", f"{gname}:{r} has a {other} callback", (CF, 0), f"rule `{r}` of {gname} is handled by the {other} transformer")
+            if r in tr[other] or plain:
+                ctx.check(r in tr[other], "R2", f"{gname}:{r} has a {other} callback", (CF, 0), f"rule `{r}` of {gname} is handled by the {other} transformer")
+            else:
+                ctx.unrec("R2", f"{gname}:{r} has a {other} callback", (CF, 0), f"no callback `{r}` is bound in the class bodies of the {other} transformer, which is not a plain class: cannot tell")
     ctx.floor("R2", "grammar rules", n, 16)
     # purity of the shared callbacks as seen by the C transformer (decided on the value the callback returns, not on its spelling)
+    # concrete children of the shapes each rule has (the callbacks see already-transformed children: strings)
+    SAMPLES = {"expression": (["a"], ["a", "+", "b*c"], ["a", "-", "b", "+", "c d"]), "multiply": (["a"], ["a", " * ", "b"], ["x", "/", "(a/b)", " * ", "c"]),
+               "func": (["exp", "(", "x", ")"], ["f", "(", "x", ", ", "y z", ")"]), "variable": (["T"], ["T", "gas"], ["k", "_", "1", "b"]),
+               "atom": (["x"], ["(", "a + b", ")"], ["(", "a", ")"], ["1.e0"]), "power": (["x", "**", "y"], ["(a + b)", "**", "2.e0"]),
+               "listvar": (["n", "(", "IDX_H", ")"], ["n", "(", "IDX_HeII", ")"]), "index": (["_", "H"], ["_", "He", "II"], ["_", "C", "_", "1"])}
     for name, sep in PURE_JOIN_OK.items():
         _callback_is(ctx, ci, name, ("", ast.literal_eval(sep), [], ""), f"CExpression.{name} is a pure join", f"`{name}` concatenates all of its children in order",
                      f"the C callback `{name}` is not the plain concatenation of its children: tokens (e.g. parentheses) can be dropped or re-ordered, changing the value of the expression "
-                     "(x/(a/b) -> x/a/b)")
+                     "(x/(a/b) -> x/a/b)", samples=SAMPLES[name])
     # number literals: the callback must hand over every token of the literal, and every exponent letter the grammar
     # accepts must be one C understands (the callbacks copy the letter)
     for gname, other in (("fgrammar", "c"), ("cgrammar", "fortran")):
@@ -575,11 +1051,11 @@ def _r2(ctx, pkg, ci, gr):
             ctx.check(not bad, "R2", f"{gname}:exponent letters", (CF, 0), "the exponent letters of the grammar are C's (e/E)" if not bad else
                       f"the grammar accepts the exponent letter(s) {bad}, which no callback turns into C's `e`", expected="['E', 'e']", found=str(sorted(letters)))
     _callback_is(ctx, ci, "power", ("pow(", "", [("**", ", ")], ")"), "CExpression.power", "a**b becomes pow(a, b): no `**` survives in C output",
-                 "the C callback `power` does not turn `a**b` into pow(a, b): `**` (not a C operator) survives or the operands are altered")
+                 "the C callback `power` does not turn `a**b` into pow(a, b): `**` (not a C operator) survives or the operands are altered", samples=SAMPLES["power"])
     # the three single-character replacements do not feed each other ( '(' ')' 'n' are not produced by any of them ): any order
     _callback_is(ctx, ci, "listvar", ("", "", [("(", "["), (")", "]"), ("n", "y")], ""), "CExpression.listvar", "n(idx_X) becomes y[IDX_X]",
-                 "the C callback `listvar` does not turn n(idx_X) into y[IDX_X]")
-    _callback_is(ctx, ci, "index", ("IDX", "", [], ""), "CExpression.index", "idx_X becomes IDX_X", "the C callback `index` does not turn idx_X into IDX_X")
+                 "the C callback `listvar` does not turn n(idx_X) into y[IDX_X]", samples=SAMPLES["listvar"])
+    _callback_is(ctx, ci, "index", ("IDX", "", [], ""), "CExpression.index", "idx_X becomes IDX_X", "the C callback `index` does not turn idx_X into IDX_X", samples=SAMPLES["index"])
 
 
 def _prepass(ctx, pkg, fn):
@@ -752,6 +1228,17 @@ def _r3(ctx, pkg):
                     ok = len(items) == 3 and g1[0] is sp.SUBPATTERN and g2[0] is sp.SUBPATTERN and lit == (sp.LITERAL, ord("d")) and has_digit(g1) and has_digit(g2) and rep == r"\1e\2"
                 except Exception:
                     ok = False
+            if not ok and isinstance(rep, str):
+                # another spelling of the pattern: judged by what it does to Fortran literals (and to text it must leave alone), against
+                # the reviewed rewriting -- the regex engine applied to literals written in the source, nothing of naunet is run
+                SAMPLES_D = ["1.d0", "2.5d-3", "1d10", "3.0d1*x", "k(idx_d)", "exp(-1.d0/T)", "1.2d-9*T32**(1d0/3d0)", "dexp(2d0)", "(Tgas/1d4)**(-3d0/2d0)", "user_d2", "4.d-10", "1.00d+00"]
+                try:
+                    got = [re.sub(pat, rep, t) for t in SAMPLES_D]
+                    ref = [re.sub(r"(\d\.?)d(\-?\d)", r"\1e\2", t) for t in SAMPLES_D]
+                    ok = got == ref
+                except re.error:
+                    ctx.unrec("R3", "d-exponent pattern", (KR, line), f"the pattern {pat!r} / replacement {rep!r} does not compile")
+                    continue
             ctx.check(ok, "R3", "d-exponent pattern", (KR, line), "<digits>d<exp> becomes <digits>e<exp>, sign and digits of the exponent kept", expected=r"(\d\.?)d(\-?\d) -> \1e\2", found=f"{pat} -> {rep}")
             continue
         ctx.bad("R3", f"unreviewed rewriting {pat!r}", (KR, line),
@@ -817,4 +1304,61 @@ BENIGN = [
          "new": '        return self._to_c(self._prepared(self.rate_string))\n\n    def _prepared(self, text):\n        for pattern, replacement in self._rewrites:\n            text = pattern.sub(replacement, text)\n        return text.replace("Hnuclei", "nH")\n\n    def _to_c(self, text):\n        self._kromerateconverter.read(text)\n        return format(self._kromerateconverter, "c")\n'},
         {"file": KR, "old": '    def rateexpr(self, grain: Grain = None) -> str:', "new": '    _rewrites = (\n        (re.compile(r"(\\d\\.?)d(\\-?\\d)"), r"\\1e\\2"),\n        (re.compile(r"(idx_.?)p"), r"\\1II"),\n        (re.compile(r"(idx_.?)m"), r"\\1M"),\n        (re.compile(r"(idx_.?)\\)"), r"\\1I)"),\n    )\n\n    def rateexpr(self, grain: Grain = None) -> str:'}]},
     {"name": "d-exponent-replacement-as-function-of-the-groups", "file": KR, "old": '        rate = re.sub(r"(\\d\\.?)d(\\-?\\d)", r"\\1e\\2", self.rate_string)\n', "new": '        rate = re.sub(r"(\\d\\.?)d(\\-?\\d)", lambda m: m.group(1) + "e" + m.group(2), self.rate_string)\n'},
+]
+
+
+# ---------------------------------------------------------------- second catalogue: other spellings of callbacks / grammar text; sign rule; text identity
+_POWER_C = "        power = lambda self, p: f\"pow({''.join(p).replace('**', ', ')})\"\n"
+_ATOM = '        atom = lambda self, a: "".join(a)'
+_LISTVAR_C = '        listvar = (\n            lambda self, l: "".join(l)\n            .replace("(", "[")\n            .replace(")", "]")\n            .replace("n", "y")\n        )\n'
+_FACTORY = ('def _joined(separator="", prefix=""):\n    def callback(self, children):\n        return prefix + separator.join(children)\n\n    return callback\n\n\n'
+            'class ExpressionConverter:\n')
+_SIGNED_RULE = "        scientific: NUMBER ((E1 | E2) SIGN? NUMBER)?\n        atom: scientific\n            | power\n            | variable\n            | listvar\n            | func\n            | LPAREN expression RPAREN\n        PLUS"
+MUTANTS += [
+    {"name": "fortran-atom-with-a-leading-sign", "edits": [
+        {"file": CF, "old": _SIGNED_RULE, "new": _SIGNED_RULE.replace("        atom: scientific\n", "        negated: MINUS (variable | func | LPAREN expression RPAREN)\n        atom: scientific\n            | negated\n")},
+        {"file": CF, "old": _ATOM, "new": _ATOM + '\n        negated = lambda self, a: "".join(a)'}], "rules": ["R1"]},
+    {"name": "c-power-operands-by-position-swapped", "file": CF, "old": _POWER_C, "new": '        power = lambda self, p: f"pow({p[2]}, {p[0]})"\n', "rules": ["R2"]},
+    {"name": "preprocessing-respells-literals-for-the-whole-line", "file": KR, "old": "        else:\n            return line.strip()\n", "new": "        else:\n            return re.sub(r\"(\\d)[dD]0\\b\", r\"\\1\", line.strip())\n", "rules": ["R8"]},
+    {"name": "rate-field-case-folded", "file": KR, "old": '                    self.rate_string = value.replace("dexp", "exp")', "new": '                    self.rate_string = value.lower().replace("dexp", "exp")', "rules": ["R8"]},
+]
+BENIGN += [
+    {"name": "c-power-operands-by-position", "file": CF, "old": _POWER_C, "new": '        power = lambda self, p: f"pow({p[0]}, {p[2]})"\n'},
+    {"name": "atom-single-child-shortcut", "file": CF, "old": _ATOM, "new": '        def atom(self, a):\n            if len(a) == 1:\n                return a[0]\n            return "".join(a)'},
+    {"name": "join-callbacks-from-a-module-level-factory", "edits": [
+        {"file": CF, "old": "class ExpressionConverter:\n", "new": _FACTORY},
+        {"file": CF, "old": '        expression = lambda self, e: " ".join(e)\n        multiply = lambda self, m: "".join(m)\n', "new": '        expression = _joined(" ")\n        multiply = _joined()\n'},
+        {"file": CF, "old": "        index = lambda self, i: f\"IDX{''.join(i)}\"\n", "new": '        index = _joined(prefix="IDX")\n'}]},
+    {"name": "listvar-table-at-module-level", "edits": [
+        {"file": CF, "old": "class ExpressionConverter:\n", "new": '_TO_C = str.maketrans("()n", "[]y")\n\n\nclass ExpressionConverter:\n'},
+        {"file": CF, "old": _LISTVAR_C, "new": '        def listvar(self, l):\n            return "".join(l).translate(_TO_C)\n', "count": 1}]},
+    {"name": "grammar-pieces-at-module-level-through-a-layout-function", "edits": [
+        {"file": CF, "old": "class ExpressionConverter:\n", "new": '_SUM = "expression: multiply ((PLUS | MINUS) multiply)*"\n\n\ndef _block(*lines):\n    return "\\n".join(lines) + "\\n"\n\n\nclass ExpressionConverter:\n'},
+        {"file": CF, "old": '    fgrammar = r"""\n        expression: multiply ((PLUS | MINUS) multiply)*\n', "new": '    fgrammar = _block(_SUM) + r"""'}]},
+    {"name": "preprocessing-strips-into-a-local", "file": KR, "old": "        else:\n            return line.strip()\n", "new": "        else:\n            stripped = line.strip()\n            return stripped\n"},
+]
+
+
+# ---------------------------------------------------------------- third catalogue: the per-file reset as the entry of a `with` block (R4, shared with C17)
+_NF = "naunet/network.py"
+_RESET_OLD = ("        rclass = supported_reaction_class.get(format)\n        if rclass:\n            rclass.initialize()\n        else:\n            raise RuntimeError(f\"Unknown format: {format}\")\n\n"
+              "        with open(filename, \"r\") as networkfile:\n")
+_RESET_NEW = "        rclass = supported_reaction_class.get(format)\n        with _Reading(rclass, format), open(filename, \"r\") as networkfile:\n"
+
+
+def _reading_cm(enter):
+    return ("class _Reading:\n    def __init__(self, rclass, format):\n        self._rclass = rclass\n        self._format = format\n\n    def __enter__(self):\n"
+            "        if not self._rclass:\n            raise RuntimeError(f\"Unknown format: {self._format}\")\n" + enter +
+            "\n    def __exit__(self, exc_type, exc_value, traceback):\n        return False\n\n\ndef define_reaction(name: str):\n")
+
+
+MUTANTS += [
+    {"name": "reset-in-a-context-manager-skipped-for-one-format", "edits": [
+        {"file": _NF, "old": _RESET_OLD, "new": _RESET_NEW},
+        {"file": _NF, "old": "def define_reaction(name: str):\n", "new": _reading_cm("        if self._format != \"krome\":\n            self._rclass.initialize()\n")}], "rules": ["R4"]},
+]
+BENIGN += [
+    {"name": "reset-in-a-context-manager", "edits": [
+        {"file": _NF, "old": _RESET_OLD, "new": _RESET_NEW},
+        {"file": _NF, "old": "def define_reaction(name: str):\n", "new": _reading_cm("        self._rclass.initialize()\n")}]},
 ]
